@@ -273,6 +273,12 @@ def r18_2(ctx):
                                         or any(y[0] == 'index' and any(z[0] == 'field' and z[2] == 'string' for z in walk(y[1])) and any(is_pos(z) for z in walk(y[2])) for y in walk(d[-1][2])))
                     adv = adv or (bool(d) and elem and rv[2][0][1][0] == 'bin' and rv[2][0][1][1] == 'Add' and rv[2][0][1][3] == ('const', 1) and any(is_pos(z) for z in walk(rv[2][0][1][2])))
         ctx.check(R, adv, 'Str:advance', 'Str::accept must advance by one exactly when the pattern byte at the current position equals the input byte', fn=acc)
+    # Str accepts exactly one string: no state has only accepting continuations (one more byte after the full string is dead), so the
+    # hint must be the provided `false`; an override that is ever true lets Complement prune keys that match
+    sw = lib.fn(IMPL % ("Str<'a>", 'will_always_match'))
+    if sw is not None:
+        rets_ = [q.ret() for q in explore(sw, max_visits=1) if q.end == 'return']
+        ctx.check(R, bool(rets_) and all(r_ == ('const', 0) for r_ in rets_), 'Str:never-always', 'Str::will_always_match is overridden and can be true (%s): after the whole string one more byte still leads to the dead state' % [fmt(r_)[:40] for r_ in rets_], fn=sw)
     # Subsequence: will_always_match(s) = (s == len); accept keeps s when s == len; is_match is the same predicate
     ty = "Subsequence<'a>"
     wam, acc, im, cm = (lib.fn(IMPL % (ty, m)) for m in ('will_always_match', 'accept', 'is_match', 'can_match'))
